@@ -688,7 +688,7 @@ Definition compile (fuel : nat) (src : list Z) : outcome :=
       match (p_next ;;;
              (fun st => parse fuel (NProgram (peek_indent st) 1 [] None) st)) (init_pstate l0) with
       | Ok pg st =>
-          if negb (peek_ty st =? g_TypeEOF) then OErr ErrInvalidSyntax (curr_start st)
+          if negb (peek_ty st =? g_TypeEOF) then OErr ErrInvalidSyntax (peek_start st)   (* the remaining token is the offending one *)
           else OTree pg (lines (lx st)) (itype (lx st))
       | Err c k => OErr c k
       | Crash => OCrash
